@@ -595,7 +595,7 @@ pub fn meta() -> CheckMeta {
             "n = 0..20 is the range where all coefficients are below 2^53 (monomial form representable without loss)".into(),
         ],
         exhaustive: true,
-        stuck_is_violation: false,
+        stuck_is_violation: true,
     }
 }
 
